@@ -462,6 +462,8 @@ def install(eng):
         """exc_is(failure, 'ClassName'): the Failure wraps an instance of that class (or a subclass)"""
         f = args[0]
         name = B.fmt_of(e, args[1], node.args[1], fr)
+        if f.ty[0] == 'opt':
+            return vbool(z3.And(z3.Not(T.is_none(f)), exc_tag_in(e, H.heap_read(e, T.opt_val(f), 'exc_tag').t, name)))
         return vbool(exc_tag_in(e, H.heap_read(e, f, 'exc_tag').t, name))
 
     eng.builtin_names['exc_is'] = PyObj('builtin', b_exc_is)
